@@ -560,6 +560,43 @@ fn main() {
     let jobs: Vec<Value> = case["jobs"].as_array().cloned().unwrap_or_default();
     let rc = build_route(&jobs);
 
+    // task order as a hard rule
+    if case["kind"] == "tour_order" {
+        use vrp_core::construction::features::{create_tour_order_hard_feature, OrderResult, TourOrderFn};
+        let order_of = |v: &Value| match v["order"]["kind"].as_str().unwrap() {
+            "value" => OrderResult::Value(num(&v["order"]["value"])),
+            "default" => OrderResult::Default,
+            _ => OrderResult::Ignored,
+        };
+        let mut table: HashMap<String, OrderResult> = HashMap::new();
+        let mut mk = |v: &Value, id: String| {
+            table.insert(id.clone(), order_of(v));
+            let mut a = job_activity(v);
+            let mut dimens = Dimensions::default();
+            dimens.set_job_id(id);
+            a.job = Some(Arc::new(Single { places: vec![], dimens }));
+            a
+        };
+        let mut rc = RouteContext::new(actor.clone());
+        for (i, j) in jobs.iter().enumerate() {
+            let a = mk(j, format!("j{i}"));
+            rc.route_mut().tour.insert_last(a);
+        }
+        let tgt = mk(&case["target"], "target".to_string());
+        let order_fn: TourOrderFn = TourOrderFn::Left(Arc::new(move |single: &Single| {
+            table.get(single.dimens.get_job_id().unwrap()).copied().unwrap_or(OrderResult::Ignored)
+        }));
+        let f_order = create_tour_order_hard_feature("order", ViolationCode(7), order_fn).unwrap();
+        let leg = case["leg"].as_u64().unwrap_or(0) as usize;
+        let prev = rc.route().tour.get(leg).unwrap();
+        let next = rc.route().tour.get(leg + 1);
+        let activity_ctx = ActivityContext { index: leg, prev, target: &tgt, next };
+        let out = json!({"evaluate_order": violation(
+            f_order.constraint.as_ref().unwrap().evaluate(&MoveContext::activity(&solution_ctx, &rc, &activity_ctx)))});
+        println!("{}", serde_json::to_string(&out).unwrap());
+        return;
+    }
+
     // route-level gates: shift/time-window intersection (transport) and the tour size limit
     if let Some(rj) = case.get("route_job").filter(|t| !t.is_null()) {
         use vrp_core::construction::features::create_activity_limit_feature;
